@@ -253,7 +253,17 @@ def run_rot(ctx, cases):
     tg = ctx.build()
     rc, out, err = run_driver(tg["impl_kick"], "".join(c.impl_text() for c in cases))
     if rc != 0:
-        raise RuntimeError("impl_kick (rot) failed rc=%d: %s" % (rc, err[-1500:]))
+        # the implementation died on one of the cases (the maps are constructed with the table size their constructor documents,
+        # rotmapsize = xs*ys or 0): find it and report it as what it is
+        for c in cases:
+            rc1, out1, err1 = run_driver(tg["impl_kick"], c.impl_text())
+            if rc1 != 0:
+                ctx.violation("impl-oracle", "RotationMap constructor/apply terminates abnormally (exit status %d: a negative value is the signal, "
+                              "-11 = invalid memory access) on a configuration its constructor accepts" % rc1, case=c.replay(),
+                              observed=dict(status=rc1, stderr=err1[-300:]), expected="table written and read inside _hinfo",
+                              sig=dict(kind="rot", clause="memory"))
+                return [dict(case=c.replay(), detail=dict(what="implementation crashed", status=rc1), sig=dict(kind="rot", stage="correspondence", what="crash"))]
+        raise RuntimeError("impl_kick (rot) failed rc=%d on the whole case set but on no single case: %s" % (rc, err[-1500:]))
     impl = parse_cases(out)
     mtext = []
     live = []
